@@ -560,6 +560,23 @@ func c03Case(c *rig.Ctx) {
 			default:
 				wr.class, wr.peer, wr.cli = "unknown-writer-feature", h.peer, "unk"
 			}
+			// writes that fail BOTH conditions (no binding and no write permission) must still get exactly one error result
+			if bound && (strings.HasPrefix(wr.class, "read-only-function") || strings.HasPrefix(wr.class, "function-not-added") || wr.class == "function-of-foreign-type") && r.Intn(3) == 0 {
+				wr.peer = (h.peer + 1 + r.Intn(2)) % 3
+				wr.class += "+non-holder"
+			}
+			if !bound && r.Intn(3) == 0 {
+				if fn := notAddedFn(s); fn != "" {
+					wr.fn = fn
+					wr.class += "+function-not-added"
+				}
+				for _, fn := range s.all {
+					if wf, added := s.writable[fn]; added && !wf && r.Intn(2) == 0 {
+						wr.fn = fn
+						wr.class = "no-binding-on-feature+read-only-function"
+					}
+				}
+			}
 			if wr.cli != "unk" && !cw.announced(wr.peer, wr.cli) {
 				wr.class += "+unannounced"
 			}
